@@ -307,15 +307,8 @@ func c30NewPC(o c30PCOpt) *PeerConnection {
 
 var c30TrackSeq atomic.Int64 //nolint:gochecknoglobals
 
-func c30Track(kind RTPCodecType, rid string, prof *c30Profile) *TrackLocalStaticRTP {
+func c30Track(kind RTPCodecType, rid string, capb RTPCodecCapability) *TrackLocalStaticRTP {
 	n := c30TrackSeq.Add(1)
-	capb := RTPCodecCapability{MimeType: MimeTypeVP8, ClockRate: 90000}
-	if kind == RTPCodecTypeAudio {
-		capb = RTPCodecCapability{MimeType: MimeTypeOpus, ClockRate: 48000, Channels: 2}
-	}
-	if pc, ok := prof.trackCap(kind); ok {
-		capb = pc // a profiled application sends what it registered (else: a codec its MediaEngine does not know)
-	}
 	var opts []func(*TrackLocalStaticRTP)
 	id := fmt.Sprintf("%s-%d", kind, n)
 	if rid != "" {
@@ -330,10 +323,35 @@ func c30Track(kind RTPCodecType, rid string, prof *c30Profile) *TrackLocalStatic
 	return t
 }
 
+// capFor returns the codec a local track of the given kind uses. The default application sends VP8 / Opus. A
+// profiled application sends the first primary codec it registered; in a pair where either side is profiled the
+// choice is narrowed to what the other side can receive (sendCaps) - an application does not add tracks nobody
+// can negotiate, and a pion peer refuses an answer that rejects one of its sending tracks, which would only keep
+// the pair from ever connecting. ok=false: no track of this kind.
+func (p *c30Peer) capFor(kind RTPCodecType) (RTPCodecCapability, bool) {
+	if p.sendCaps != nil {
+		if c := p.sendCaps[kind]; c != nil {
+			return *c, true
+		}
+
+		return RTPCodecCapability{}, false
+	}
+	if p.prof != nil {
+		return p.prof.trackCap(kind)
+	}
+	if kind == RTPCodecTypeAudio {
+		return RTPCodecCapability{MimeType: MimeTypeOpus, ClockRate: 48000, Channels: 2}, true
+	}
+
+	return RTPCodecCapability{MimeType: MimeTypeVP8, ClockRate: 90000}, true
+}
+
 // c30Peer is a PeerConnection with its local tracks and the counters of the application-style read loops.
 type c30Peer struct {
 	pc     *PeerConnection
 	prof   *c30Profile
+	// sendCaps, when non-nil, overrides the codec of local tracks per kind (nil entry: no track of that kind)
+	sendCaps map[RTPCodecType]*RTPCodecCapability
 	tracks []*TrackLocalStaticRTP
 	seq    uint16
 	onTrk  atomic.Int64
@@ -399,7 +417,11 @@ func (c *c30Child) readSenderRTCP(p *c30Peer, s *RTPSender) {
 }
 
 func (c *c30Child) addTrack(p *c30Peer, kind RTPCodecType) {
-	t := c30Track(kind, "", p.prof)
+	capb, ok := p.capFor(kind)
+	if !ok {
+		return
+	}
+	t := c30Track(kind, "", capb)
 	s, err := p.pc.AddTrack(t)
 	if err != nil {
 		return
@@ -409,7 +431,11 @@ func (c *c30Child) addTrack(p *c30Peer, kind RTPCodecType) {
 }
 
 func (c *c30Child) addSimulcast(p *c30Peer) {
-	q, h, f := c30Track(RTPCodecTypeVideo, "q", p.prof), c30Track(RTPCodecTypeVideo, "h", p.prof), c30Track(RTPCodecTypeVideo, "f", p.prof)
+	capb, ok := p.capFor(RTPCodecTypeVideo)
+	if !ok {
+		return
+	}
+	q, h, f := c30Track(RTPCodecTypeVideo, "q", capb), c30Track(RTPCodecTypeVideo, "h", capb), c30Track(RTPCodecTypeVideo, "f", capb)
 	tr, err := p.pc.AddTransceiverFromTrack(q, RTPTransceiverInit{Direction: RTPTransceiverDirectionSendonly})
 	if err != nil {
 		return
@@ -629,7 +655,11 @@ func (c *c30Child) caseFresh(k int) { //nolint:cyclop,gocognit
 	if kit.Tier() == "thorough" && r.Chance(0.3) {
 		nmut += r.Range(2, 8) // thorough: pile up mutations
 	}
-	v := c.newPeer(c30PCOpt{Sem: sem, Icpt: icpt, SE: func(se *SettingEngine) {
+	var prof *c30Profile
+	if r.Chance(0.3) {
+		prof = c30GenProfile(r) // configuration dimension, see c30_config_test.go
+	}
+	v := c.newPeer(c30PCOpt{Sem: sem, Icpt: icpt, Prof: prof, SE: func(se *SettingEngine) {
 		if k%7 == 3 {
 			se.SetHandleUndeclaredSSRCWithoutAnswer(true)
 		}
@@ -638,7 +668,11 @@ func (c *c30Child) caseFresh(k int) { //nolint:cyclop,gocognit
 		}
 	}})
 	c.setup(v, setup)
-	tag := fmt.Sprintf("fresh|%s|icpt%d|setup%d", c30SemName(sem), icpt, setup)
+	tag := fmt.Sprintf("fresh|%s|icpt%d|setup%d|cfg=%s", c30SemName(sem), icpt, setup, prof.Key())
+	if prof != nil {
+		c.Seen("victim_media_engine", prof.ME)
+		c.Count("fresh_victim_profiled", 1)
+	}
 	seed := c.pickSeed(r)
 	base := seed.SDP
 	if role != "offer" {
@@ -647,7 +681,11 @@ func (c *c30Child) caseFresh(k int) { //nolint:cyclop,gocognit
 			err = v.pc.SetLocalDescription(offer)
 		}
 		if err != nil {
-			c.inconclusive("fresh:local-offer-failed")
+			if prof == nil {
+				c.inconclusive("fresh:local-offer-failed")
+			} else {
+				c.Count("fresh_profiled_local_offer_failed", 1) // e.g. a track whose codec the narrow MediaEngine lacks
+			}
 			c.finish(v.pc)
 
 			return
@@ -670,7 +708,7 @@ func (c *c30Child) caseFresh(k int) { //nolint:cyclop,gocognit
 	text, names := c30MutateSDP(r, base, nmut, false)
 	c.setCur(map[string]any{
 		"phase": "sdp-fresh", "semantics": c30SemName(sem), "role": role, "local_setup": setup, "interceptors": icpt,
-		"seed_name": seed.Name, "mutators": names, "sdp": text,
+		"seed_name": seed.Name, "mutators": names, "sdp": text, "victim_profile": prof,
 	})
 	for _, n := range names {
 		c.Seen("mutators", strings.SplitN(n, ":", 2)[0])
